@@ -12,9 +12,11 @@
   (the objects of the C13 theorems); the expiry window is the generated `LemoGen.TxWindow`.
 
   Abstract (fields of `Ctx`): the store lookups, `hash` (Keccak of the RLP of the hashed tuple),
-  `recover` (secp256k1 public-key recovery), `merkleRoot`, the tx guard's ancestor-path predicate and
-  `reexec` (TxProcessor.Process + Finalize on the parent's state).
-  A Go panic is the explicit verdict `.panic`.
+  `recover` (secp256k1 public-key recovery), `merkleRoot`, the tx guard's ancestor-path predicate
+  (`none` = it panics) and `reexec` (TxProcessor.Process + Finalize on the parent's state); per tx the
+  non-expiry part of `VerifyTxBody` (`bodyOk`, `bodyPanics`).
+  A Go panic is the explicit verdict `.panic`; an error return of `saveNewBlock` AFTER its first writes is
+  the explicit verdict `.saveFailed` (the abstract `save` returns the state it leaves behind and a flag).
 -/
 import LemoModel.Sched
 import LemoGen.TxWindow
